@@ -481,9 +481,10 @@ func (env *SpecEnv) index(x *SIndex) Val {
 		case *types.Array:
 			return Val{T: app("select", base.T, idx.T), Ty: bt.Elem(), So: u.sortOf(bt.Elem())}
 		case *types.Map:
+			// In specifications m[k] is the stored value; it is unspecified for absent keys
+			// (guard with `k in m`). This keeps quantifier triggers free of if-then-else.
 			idx = u.convert(idx, bt.Key())
-			v, _ := u.mapGet(base, idx.T, bt)
-			return Val{T: v, Ty: bt.Elem(), So: u.sortOf(bt.Elem())}
+			return Val{T: app("select", app("mval_"+base.So, base.T), idx.T), Ty: bt.Elem(), So: u.sortOf(bt.Elem())}
 		case *types.Basic:
 			if isStringType(base.Ty) {
 				return Val{T: app("str.to_code", app("str.at", base.T, idx.T)), Ty: types.Typ[types.Byte], So: "Int"}
@@ -739,7 +740,7 @@ func (env *SpecEnv) pureCall(f *types.Func, recv *Val, args []SExpr) Val {
 // the function's body (or listed as trusted for externs).
 func (u *Unit) pureAxiom(pk, key string, c *Contract, f *types.Func) {
 	id := "pure:" + pk + "." + key
-	if u.ghostDone[id] || len(c.Ensures) == 0 {
+	if u.ghostDone[id] {
 		return
 	}
 	u.ghostDone[id] = true
@@ -788,6 +789,9 @@ func (u *Unit) pureAxiom(pk, key string, c *Contract, f *types.Func) {
 	}
 	for _, e := range c.Ensures {
 		post = append(post, env.evalBool(e.Expr))
+	}
+	if inv := u.typeInv(res); inv != "true" {
+		post = append(post, inv)
 	}
 	if len(hst.heap) != nkeys {
 		var extra []string
@@ -1036,6 +1040,22 @@ func (u *Unit) resolveType(home *packages.Package, t *STypeExpr) (types.Type, st
 				for i := 0; i < tps.Len(); i++ {
 					if tps.At(i).Obj().Name() == t.Name {
 						return tps.At(i), u.sortOf(tps.At(i))
+					}
+				}
+			}
+		}
+		// a type parameter of some generic type of the home package (lemmas and axioms about generic code)
+		if home != nil {
+			names := home.Types.Scope().Names()
+			for _, n := range names {
+				if tn, ok := home.Types.Scope().Lookup(n).(*types.TypeName); ok {
+					if named, ok := tn.Type().(*types.Named); ok && named.TypeParams() != nil {
+						for i := 0; i < named.TypeParams().Len(); i++ {
+							if named.TypeParams().At(i).Obj().Name() == t.Name {
+								tp := named.TypeParams().At(i)
+								return tp, u.sortOf(tp)
+							}
+						}
 					}
 				}
 			}
